@@ -158,8 +158,14 @@ impl Check for C14 {
                     let _ = imp::compile(&with_s, "", xsd);
                     let a = observe(&with_s, "x", &stripped, xsd);
                     let b = base_cache.entry((stripped.clone(), xsd)).or_insert_with(|| observe(&stripped, "", &stripped, xsd)).clone();
-                    if a.iter().any(|x| x.contains("CRASH") || x.contains("PANIC") || x.contains("NONTERMINATION")) || b.iter().any(|x| x.contains("CRASH") || x.contains("PANIC") || x.contains("NONTERMINATION")) {
+                    let crashed = |v: &Vec<String>| v.iter().any(|x| x.contains("CRASH") || x.contains("PANIC") || x.contains("NONTERMINATION"));
+                    if crashed(&a) && crashed(&b) {
                         out.inc("inconclusive_crash");
+                        continue;
+                    }
+                    if crashed(&a) != crashed(&b) {
+                        out.inc("validated");
+                        out.fail("C14", &Case::new(&scope_name, &with_s, "x").xsd(xsd).api("all"), "OnlyOneSideCrashes", &format!("like {:?} without x: {}", stripped, b.join(" ;; ")), &a.join(" ;; "), "a panic or an exhausted step budget on one side only is a difference");
                         continue;
                     }
                     if !balanced && !(a[0].starts_with("compile=Err") && b[0].starts_with("compile=Err")) {
